@@ -20,6 +20,7 @@
 (*                away: must fail and change nothing                       *)
 (*   AddDup       AddBlock of a block already in the tree: must fail       *)
 (*   AddWrongNum  AddBlock with number # parent number + 1: must fail      *)
+(*   AddNoDigest  AddBlock of a header without BABE pre-digest: must fail  *)
 (*   Finalise     Prune(b) / SetFinalisedHash(b, r, s); b may be a tree    *)
 (*                node (leaf, inner, the root itself), a stale or          *)
 (*                abandoned block, or an unknown hash                      *)
@@ -93,11 +94,15 @@ OrphanOps == {[op |-> "AddOrphan", b |-> ScratchId, p |-> p, n |-> IF p \in Know
 DupOps == {[op |-> "AddDup", b |-> b] : b \in live}
 WrongNumOps == {[op |-> "AddWrongNum", b |-> ScratchId, p |-> p, n |-> Num(p) + 2, prim |-> FALSE, arr |-> 1,
                  hr |-> HashRank[ScratchId]] : p \in live}
+(* a block whose parent and number are fine but whose header carries no BABE pre-digest: the *)
+(* tree cannot classify it (primary / secondary), must refuse it and must keep no trace of it  *)
+NoDigestOps == {[op |-> "AddNoDigest", b |-> ScratchId, p |-> p, n |-> Num(p) + 1, prim |-> FALSE, arr |-> 1,
+                 hr |-> HashRank[ScratchId]] : p \in live}
 (* the set id only matters to the dot/state projection; it never decreases *)
 SetIds == IF ObsKind = "state" THEN {rs.s, IF rs.s < 2 THEN rs.s + 1 ELSE rs.s} ELSE {rs.s}
 FinOps == {[op |-> "Finalise", b |-> b, r |-> att + 1, s |-> s] : b \in Known \cup {Unknown}, s \in SetIds}
 
-Ops == {o \in AddOps \cup OrphanOps \cup DupOps \cup WrongNumOps \cup FinOps : o.op \in OpKinds}
+Ops == {o \in AddOps \cup OrphanOps \cup DupOps \cup WrongNumOps \cup NoDigestOps \cup FinOps : o.op \in OpKinds}
 
 (* "Finalising a block reports as pruned exactly the blocks that are       *)
 (* neither its ancestors nor its descendants."                             *)
@@ -226,7 +231,7 @@ NextPhased ==
 
 (* random generator: one operation per step (single successor)             *)
 Weighted == <<"Add", "Add", "Add", "Add", "Add", "Add", "Finalise", "Finalise", "FinaliseBad",
-              "AddOrphan", "AddDup", "AddWrongNum">>
+              "AddOrphan", "AddDup", "AddWrongNum", "AddNoDigest">>
 PickOp ==
   \* the argument of RandomElement must depend on a variable: TLC caches constant-level expressions
   LET kd == Weighted[RandomElement({i \in 1..Len(Weighted) : Len(hist) >= 0})]
